@@ -213,6 +213,12 @@ def c18_key_to_path(ctx: Ctx):
             and isinstance(sp, ast.Attribute) and sp.attr == root
         yield ctx.ob('C18.KEY-TO-PATH', ok, k2p, vc, 'validator called on the key parameter against the root',
                      '' if ok else f'validator call `{src(vc)}` does not validate parameter `{kparam}` against self.{root}')
+    from ..engine import memo_decorators
+    for f in (k2p, v):
+        md = memo_decorators(f)
+        yield ctx.ob('C18.KEY-TO-PATH', not md, f, f.node, f'{f.name} runs on every call (not memoised)',
+                     '' if not md else f'{f.name} is wrapped by {md}: a key accepted once is not re-validated when the '
+                     'directory layout changes (e.g. the key directory is replaced by a symlink)', construct=f'memo:{f.name}')
     rets = [n for n in walk_local(k2p.node) if isinstance(n, ast.Return)]
     vnodes = [g.primary(vc) for vc in vcalls]
     for r in rets:
